@@ -455,7 +455,15 @@ def plan(ctx):
             else:
                 related = True
             every = not ctx.quick and shape != "all-in-one"
-            muts = S.mutations(schema, cfg, subpath, rich=not ctx.quick, values=values, related=related, related_every=every)
+            # the `+`-suffixed names (append suffix on a name that is no list-typed key of the node): quick in the bases
+            # with every key of the single-kind shapes (the nodes of a required-only base are a subset of the nodes of
+            # the full base of the same variant); thorough wherever the spelling neighbours are explored, in the bases
+            # with every key one defined name per KIND of non-list key of the node
+            suffixed = related and (not ctx.quick or mode == "full")
+            muts = S.mutations(
+                schema, cfg, subpath, rich=not ctx.quick, values=values, related=related, related_every=every,
+                suffixed=suffixed, suffixed_every=every and mode == "full",
+            )
             for mut in muts:
                 mut_items.append((shape, cfg, mut, chans))
             # used-parser family: the base, every required key removed / nulled and the plain foreign key at every node
@@ -662,7 +670,7 @@ def explore(ctx):
         return  # the count guards below describe a run without (new) deviations
     related_shapes = {shape for shape, _, m, _ in mut_items if len(m) > 5}
     expected = {m[2] for shape, _, m, _ in mut_items if m[0] == "foreign" and shape in related_shapes}
-    for tagname in ("truncated", "extended"):
+    for tagname in ("truncated", "extended", "plus-suffixed", "plus-suffixed-defined"):
         missing = [k for k in REQUIRED_FOREIGN_KINDS if k in expected and k not in related_hit.get(tagname, ())]
         ctx.require(not missing, f"every node kind receives a foreign key with a {tagname} name (missing: {missing})")
     wrong = [k for k in prior_outcomes if k.split(":")[-1] != {"fails": "ArgumentError", "ok": "ok"}[C.PRIORS[k.rsplit(":", 1)[0]]]]
